@@ -149,20 +149,37 @@ def _history(ops, dispatch_kind, abstract, dv, pd, kv, x, px, y, a, pa, ev):
     return 2
 
 
-@harness("C07", lemma="history", cubes={"dispatch_kind": [0, 1, 2], "abstract": [False, True], "op0": list(range(N_OPS))},
-         pre=["0 <= op1 < %d" % N_OPS, "0 <= op2 < %d" % N_OPS],
-         example=dict(dispatch_kind=0, abstract=False, op0=0, op1=3, op2=5, dv=1, pd=True, kv=0, x=4, px=True, y=5, a=6, pa=True, ev=3),
-         timeout=600,
-         bounds="histories of 3 operations out of " + "; ".join("%d=%s" % kv for kv in OPS.items()) + ", an evaluation of both datasets "
-                "after each; dispatch expression: option key / Option with a default chain / dataset (D + K); default implementation or "
-                "abstract; dispatch value, payloads unbounded ints, D / X / A present or absent; uncached datasets (the stored-value "
-                "clause is C01's graphs g16-g18)",
-         what="after every registration both datasets evaluate to the implementation registered under the current dispatch value "
-              "(latest registration wins, list aliases register every alias, an alias registered on two datasets serves both), to the "
-              "default when the value is unregistered or cannot be determined, and fail if abstract; the callback wraps every implementation")
-def history(dispatch_kind: int, abstract: bool, op0: int, op1: int, op2: int, dv: int, pd: bool, kv: int, x: int, px: bool,
-            y: int, a: int, pa: bool, ev: int) -> int:
-    return _history((op0, op1, op2), dispatch_kind, abstract, dv, pd, kv, x, px, y, a, pa, ev)
+CFG = {0: (0, False), 1: (0, True), 2: (1, False), 3: (2, False), 4: (1, True), 5: (2, True)}
+_HB = ("operations: " + "; ".join("%d=%s" % kv for kv in OPS.items()) + "; both datasets are evaluated after every operation; dispatch "
+       "expression: option key / Option with a default chain / dataset (D + K); default implementation or abstract; dispatch value and "
+       "payloads unbounded ints; D and X present or absent; uncached datasets (the stored-value clause is C01's graphs g16-g18)")
+_HW = ("after every registration both datasets evaluate to the implementation registered under the current dispatch value (latest "
+       "registration wins, list aliases register every alias, an alias registered on two datasets serves both), to the default when the "
+       "value is unregistered or cannot be determined, and fail if abstract; the callback wraps every implementation")
+
+
+@harness("C07", lemma="history-2", cubes={"op0": list(range(N_OPS)), "op1": list(range(N_OPS))},
+         example=dict(op0=0, op1=3, dv=1, pd=True, x=4, px=True, y=5, a=6, ev=3), timeout=600,
+         bounds="every history of 2 operations, option-key dispatch with a default implementation; " + _HB, what=_HW)
+def history2(op0: int, op1: int, dv: int, pd: bool, x: int, px: bool, y: int, a: int, ev: int) -> int:
+    return _history((op0, op1), 0, False, dv, pd, 0, x, px, y, a, True, ev)
+
+
+@harness("C07", lemma="history-1", cubes={"cfg": [1, 2, 3, 4, 5], "op0": list(range(N_OPS))},
+         example=dict(cfg=3, op0=1, dv=1, pd=True, kv=1, x=4, px=True, y=5, a=6, ev=3), timeout=600,
+         bounds="every history of 1 operation for the other configurations (abstract dataset; Option-with-default dispatch; dataset "
+                "dispatch; their abstract variants); " + _HB, what=_HW)
+def history1(cfg: int, op0: int, dv: int, pd: bool, kv: int, x: int, px: bool, y: int, a: int, ev: int) -> int:
+    kind, abstract = CFG[cfg]
+    return _history((op0,), kind, abstract, dv, pd, kv, x, px, y, a, True, ev)
+
+
+@harness("C07", lemma="history-3", cubes={"cfg": [0, 1, 2, 3], "op0": list(range(N_OPS)), "op1": list(range(N_OPS))}, tier="thorough",
+         pre=["0 <= op2 < %d" % N_OPS], example=dict(cfg=0, op0=0, op1=3, op2=5, dv=1, pd=True, kv=0, x=4, px=True, y=5, a=6, pa=True, ev=3),
+         timeout=1800, bounds="every history of 3 operations for 4 configurations, A present or absent; " + _HB, what=_HW)
+def history3(cfg: int, op0: int, op1: int, op2: int, dv: int, pd: bool, kv: int, x: int, px: bool, y: int, a: int, pa: bool, ev: int) -> int:
+    kind, abstract = CFG[cfg]
+    return _history((op0, op1, op2), kind, abstract, dv, pd, kv, x, px, y, a, pa, ev)
 
 
 # ---------------------------------------------------------------------------------------------------------
@@ -215,15 +232,15 @@ BAD = {
 }
 
 
-@harness("C07", lemma="interface", cubes={"bad": [0, 1, 2, 3], "order": [0, 1]},
-         example=dict(bad=0, order=0, mode=7, pm=True, p=3), timeout=300,
+@harness("C07", lemma="interface", cubes={"bad": [0, 1, 2, 3], "order": [0, 1], "fm": [1, 2, 3]},
+         example=dict(bad=0, order=0, fm=1, mode=7, pm=True, p=3), timeout=300,
          bounds="two interfaces on one dispatch option (abstract member, member with default, constant member, a member name shared "
                 "by both); good implementations with single and list aliases and a multi-interface implementation; 4 kinds of bad "
                 "implementation, defined before or after the good ones; dispatch value unbounded int or absent",
          what="a bad implementation raises TypeError when defined and changes no member's behaviour for any dispatch value; under one "
               "options dictionary all members of an interface resolve to the same alias; members without an override use the "
               "interface default")
-def interface_dispatch(bad: int, order: int, mode: int, pm: bool, p: int) -> int:
+def interface_dispatch(bad: int, order: int, fm: int, mode: int, pm: bool, p: int) -> int:
     with untraced():
         Store, Audit = _mk_interfaces()
 
@@ -275,6 +292,10 @@ def interface_dispatch(bad: int, order: int, mode: int, pm: bool, p: int) -> int
     o = {"PATH": p}
     if pm:
         o["MODE"] = mode
+    if order == 1 and pm and (mode == 1 or mode == 2 or mode == 3):
+        # the good implementations are defined AFTER the snapshots below: members evaluated successfully under these very
+        # options would already be stored, and registrations only apply to evaluations "not already stored"
+        return 1
     before = _snapshot(Store, Audit, o)
     with untraced():
         rejected = define_bad()
@@ -287,7 +308,10 @@ def interface_dispatch(bad: int, order: int, mode: int, pm: bool, p: int) -> int
     if order == 1:
         with untraced():
             good()
-    # resolution under one dictionary: all members agree on the alias
+    # resolution under one dictionary: all members agree on the alias (for order 1: fresh dictionaries with MODE = fm)
+    if order == 1:
+        o = {"PATH": p, "MODE": fm}
+        pm, mode = True, fm
     final = dict(_snapshot(Store, Audit, o))
     if pm and mode == 1:
         want = {"Store.reader": "s1-reader", "Store.writer": ("writer-default", p), "Store.label": "s1",
